@@ -679,3 +679,168 @@ Proof.
     destruct (d_size d) as [w h] eqn:Es. cbn [sw sh] in Hm.
     apply render_grid; assumption.
 Qed.
+
+(* ---- SubImage::new --------------------------------------------------------------- *)
+Lemma d_box_nonneg d : d_wf d -> size_nonneg (d_box d).
+Proof. intros H. apply d_size_nonneg in H. exact H. Qed.
+
+Lemma intersection_origin_sub_wf ps area :
+  0 <= sw ps -> 0 <= sh ps -> size_nonneg area -> sub_wf ps (intersection (origin_box ps) area).
+Proof.
+  intros Hw Hh Ha. set (r := intersection (origin_box ps) area).
+  assert (Hn : size_nonneg r) by (apply intersection_size_nonneg; [split; assumption|assumption]).
+  split; [exact Hn|]. destruct (is_zero_sized r) eqn:Ez; [left; reflexivity|right].
+  destruct Hn as [Hrw Hrh]. unfold is_zero_sized in Ez.
+  assert (H1 : contains r (tl r) = true) by (apply contains_spec; lia).
+  assert (H2 : contains r (P (px (tl r) + sw (sz r) - 1) (py (tl r) + sh (sz r) - 1)) = true)
+    by (apply contains_spec; cbn [px py]; lia).
+  apply intersection_sub_l in H1, H2. apply origin_box_contains in H1, H2. cbn [px py] in H2.
+  unfold inside. lia.
+Qed.
+
+Theorem sub_image_wf d area : d_wf d -> size_nonneg area -> d_wf (sub_image d area).
+Proof.
+  intros H Ha. unfold sub_image. cbn [d_wf]. split; [assumption|].
+  pose proof (d_size_nonneg d H). apply intersection_origin_sub_wf; tauto.
+Qed.
+
+(* sub_image_spec: sub_image(area) behaves like an image made of the parent's pixels inside
+   a' = area intersected with the parent's box: target point q shows parent pixel (q - o) + a'.top_left *)
+Theorem sub_image_spec d area o bb q :
+  d_wf d -> size_nonneg area -> point_ok o ->
+  let a' := intersection (d_box d) area in
+  d_wf (sub_image d area) /\
+  d_size (sub_image d area) = sz a' /\
+  (forall x, contains a' x = contains (d_box d) x && contains area x) /\
+  render bb (image_draw (Img (sub_image d area) o)) q =
+    (let x := padd (psub q o) (tl a') in
+     if contains bb q && contains a' x then d_pixel d x else None).
+Proof.
+  intros H Ha Ho a'. pose proof (sub_image_wf d area H Ha) as Hwf.
+  split; [exact Hwf|]. split; [reflexivity|]. split; [intros x; apply intersection_spec|].
+  rewrite image_draw_spec by assumption. rewrite image_box_eq, padd_zero_l.
+  unfold sub_image. fold a'. cbn [d_size d_pixel]. cbv zeta.
+  assert (E1 : contains (R o (sz a')) q = contains (origin_box (sz a')) (psub q o)).
+  { apply eq_true_iff_eq. rewrite contains_spec, origin_box_contains. unfold psub. cbn [tl sz px py]. lia. }
+  assert (E2 : contains a' (padd (psub q o) (tl a')) = contains (origin_box (sz a')) (psub q o)).
+  { apply eq_true_iff_eq. rewrite contains_spec, origin_box_contains. unfold psub, padd. cbn [tl sz px py]. lia. }
+  rewrite E1, E2. destruct (contains bb q); cbn [andb]; [|reflexivity].
+  destruct (contains (origin_box (sz a')) (psub q o)); reflexivity.
+Qed.
+
+(* an area that is not empty and lies inside a box is its own intersection with the box *)
+Lemma intersection_inside s a : inside s a -> intersection (origin_box s) a = a.
+Proof.
+  intros (Hw & Hh & Hx & Hy & Hxw & Hyh). destruct a as [[ax ay] [aw ah]], s as [w h].
+  cbn [tl sz px py sw sh] in *. unfold intersection, origin_box, bottom_right. cbn [tl sz px py sw sh].
+  assert (E1 : (0 <? aw) && (0 <? ah) = true) by lia.
+  assert (E2 : (0 <? w) && (0 <? h) = true) by lia.
+  rewrite E1, E2. cbn [px py]. unfold overlaps. clear E1 E2.
+  match goal with |- (if ?b then _ else _) = _ => assert (E3 : b = true) by lia; rewrite E3 end.
+  unfold with_corners, component_max, component_min, size_from_bounding_box. cbn [px py].
+  f_equal; f_equal; lia.
+Qed.
+
+Lemma contains_translate_psub r d x : contains (translate_rect r d) x = contains r (psub x d).
+Proof. rewrite <- (padd_psub x d) at 1. apply contains_translate. Qed.
+
+(* sub_sub_compose: a sub image of a sub image is the sub image of the root with the inner area moved by the
+   outer area's top left corner (same calls, same pixels; same size unless empty) *)
+Theorem sub_sub_compose d a1 a2 :
+  d_wf d -> size_nonneg a1 -> size_nonneg a2 ->
+  let s1 := sub_image d a1 in
+  let a1' := intersection (d_box d) a1 in
+  let a2' := intersection (d_box s1) a2 in
+  let a12 := translate_rect a2' (tl a1') in
+  d_draw (sub_image s1 a2) = d_draw (sub_image d a12) /\
+  (forall p, d_pixel (sub_image s1 a2) p = d_pixel (sub_image d a12) p) /\
+  (is_zero_sized a2' = true ->
+     is_zero_sized (d_box (sub_image s1 a2)) = true /\ is_zero_sized (d_box (sub_image d a12)) = true) /\
+  (is_zero_sized a2' = false ->
+     d_size (sub_image s1 a2) = d_size (sub_image d a12) /\
+     forall x, contains a12 x =
+               contains (d_box d) x && contains a1 x && contains (translate_rect a2 (tl a1')) x).
+Proof.
+  intros H Ha1 Ha2 s1 a1' a2' a12.
+  pose proof (sub_image_wf d a1 H Ha1) as Hwf1. fold s1 in Hwf1.
+  pose proof (sub_image_wf s1 a2 Hwf1 Ha2) as Hwf12.
+  assert (Hsub2 : sub_wf (d_size s1) a2') by (apply Hwf12).
+  destruct Hsub2 as (Hn2 & [Hz2|Hin2]).
+  - (* the inner area is empty: so is a12, and both draw nothing *)
+    assert (Hz12 : is_zero_sized (intersection (d_box d) a12) = true).
+    { assert (Hn12 : size_nonneg a12) by exact Hn2.
+      pose proof (intersection_size_nonneg _ _ (d_box_nonneg d H) Hn12) as Hni.
+      destruct (is_zero_sized (intersection (d_box d) a12)) eqn:E; [reflexivity|exfalso].
+      unfold is_zero_sized in E. destruct Hni as [Hiw Hih].
+      assert (Hc : contains (intersection (d_box d) a12) (tl (intersection (d_box d) a12)) = true)
+        by (apply contains_spec; lia).
+      apply intersection_sub_r, contains_spec in Hc. unfold is_zero_sized in Hz2.
+      unfold a12, translate_rect in Hc. cbn [tl sz] in Hc. lia. }
+    split; [|split; [|split]].
+    + unfold sub_image. fold a2'. cbn [d_draw].
+      rewrite !d_draw_sub_image_zero; [reflexivity|exact Hz12|exact Hz2].
+    + intros p. unfold sub_image. fold a2'. cbn [d_pixel].
+      replace (contains (origin_box (sz a2')) p) with false.
+      2:{ symmetry. destruct (contains (origin_box (sz a2')) p) eqn:E; [|reflexivity].
+          apply origin_box_contains in E. unfold is_zero_sized in Hz2. lia. }
+      replace (contains (origin_box (sz (intersection (d_box d) a12))) p) with false; [reflexivity|].
+      symmetry. destruct (contains (origin_box _) p) eqn:E; [|reflexivity].
+      apply origin_box_contains in E. unfold is_zero_sized in Hz12. lia.
+    + intros _. split; [exact Hz2|exact Hz12].
+    + congruence.
+  - (* the inner area is not empty: it lies inside a1', which lies inside d's box *)
+    assert (Hsub1 : sub_wf (d_size d) a1') by (apply Hwf1).
+    destruct Hsub1 as (Hn1 & [Hz1|Hin1]).
+    { exfalso. destruct Hin2 as (Hw & Hh & Hx & Hy & Hxw & Hyh). unfold s1, sub_image in Hxw, Hyh.
+      fold a1' in Hxw, Hyh. cbn [d_size] in Hxw, Hyh. unfold is_zero_sized in Hz1. lia. }
+    assert (Hin12 : inside (d_size d) a12).
+    { destruct Hin2 as (Hw & Hh & Hx & Hy & Hxw & Hyh). destruct Hin1 as (Hw1 & Hh1 & Hx1 & Hy1 & Hxw1 & Hyh1).
+      unfold s1, sub_image in Hxw, Hyh. fold a1' in Hxw, Hyh. cbn [d_size] in Hxw, Hyh.
+      unfold inside, a12, translate_rect, padd. cbn [tl sz px py]. lia. }
+    assert (Heq : intersection (d_box d) a12 = a12) by (apply intersection_inside; exact Hin12).
+    assert (Hnz : is_zero_sized a2' = false).
+    { destruct Hin2 as (Hw & Hh & _). unfold is_zero_sized. lia. }
+    split; [|split; [|split]].
+    + unfold sub_image. fold a2'. rewrite Heq. reflexivity.
+    + intros p. unfold sub_image. fold a2'. rewrite Heq. cbn [d_pixel].
+      unfold s1, sub_image. fold a1'. cbn [d_pixel]. unfold a12 at 1. cbn [translate_rect sz tl].
+      destruct (contains (origin_box (sz a2')) p) eqn:Ec; [|reflexivity].
+      replace (contains (origin_box (sz a1')) (padd p (tl a2'))) with true; [rewrite padd_assoc; reflexivity|].
+      symmetry. apply origin_box_contains in Ec. apply origin_box_contains.
+      destruct Hin2 as (Hw & Hh & Hx & Hy & Hxw & Hyh).
+      unfold s1, sub_image in Hxw, Hyh. fold a1' in Hxw, Hyh. cbn [d_size] in Hxw, Hyh.
+      unfold padd. cbn [px py]. lia.
+    + congruence.
+    + intros _. split; [unfold sub_image; fold a2'; rewrite Heq; reflexivity|].
+      intros x. unfold a12.
+      rewrite !contains_translate_psub.
+      unfold a2'. rewrite intersection_spec.
+      rewrite <- (intersection_spec (d_box d) a1 x). fold a1'.
+      assert (E : contains (d_box s1) (psub x (tl a1')) = contains a1' x).
+      { apply eq_true_iff_eq. unfold d_box, s1, sub_image. fold a1'. cbn [d_size].
+        rewrite origin_box_contains, contains_spec. unfold psub. cbn [px py]. lia. }
+      rewrite E. reflexivity.
+Qed.
+
+(* ---- Image::with_center ------------------------------------------------------------ *)
+Theorem with_center_spec d c :
+  0 <= sw (d_size d) -> 0 <= sh (d_size d) ->
+  let i := image_with_center d c in
+  image_box i = with_center c (d_size d) /\
+  sz (image_box i) = d_size d /\
+  i = image_new d (psub_size c (S (Z.max (sw (d_size d) - 1) 0 / 2) (Z.max (sh (d_size d) - 1) 0 / 2))) /\
+  center (image_box i) = c /\
+  (forall br, bottom_right (image_box i) = Some br ->
+     0 <= px (tl (image_box i)) + px br - 2 * px c <= 1 /\
+     0 <= py (tl (image_box i)) + py br - 2 * py c <= 1).
+Proof.
+  intros Hw Hh i. unfold i, image_with_center, image_box, image_new. cbn [im_drawable im_offset].
+  unfold d_box, origin_box, translate_rect. cbn [tl sz]. rewrite padd_zero_l.
+  destruct (d_size d) as [w h]. cbn [sw sh] in *. destruct c as [cx cy].
+  unfold with_center, center, center_offset, size_sat_sub, sat_sub_u32, psub_size, padd_size, bottom_right.
+  cbn [tl sz px py sw sh].
+  split; [reflexivity|]. split; [reflexivity|]. split; [reflexivity|]. split.
+  - f_equal; lia.
+  - intros br. destruct (_ && _) eqn:E; [|discriminate]. intros Hbr. inversion Hbr; subst br. cbn [px py].
+    split; lia.
+Qed.
